@@ -27,11 +27,34 @@ def classify(e):
     return "Posix:rejected-valid"
 
 
+def tlc_sentences(verdict):
+    """spec -> impl: the full product of the grammar's component sets, enumerated by TLC (GenPosix); cached by spec hash."""
+    import hashlib
+    h = hashlib.sha1(open(os.path.join(V.SPEC, "GenPosix.tla"), "rb").read() + open(os.path.join(V.SPEC, "PosixTZ.tla"), "rb").read()).hexdigest()[:12]
+    cache = os.path.join(V.BUILD, "genposix-%s.txt" % h)
+    if not os.path.exists(cache):
+        r = V.tlc("GenPosix", "GenPosix.cfg", env={"FULL": "0"}, workers=1, timeout=1800, heap="6g")
+        if not r.ok:
+            verdict.infra_failure("GenPosix: " + r.tail(5))
+            return [], 0
+        out = []
+        for ln in r.out.splitlines():
+            if ln.startswith('"SENT '):
+                out.append(bytes(json.loads(json.loads(ln)[5:])["s"]).hex())
+        open(cache, "w").write("\n".join(out) + "\n")
+    hexes = open(cache).read().split()
+    return [bytes.fromhex(x) for x in hexes], len(hexes)
+
+
 def run(pid, tier, seed):
     t0 = time.time()
     verdict = V.Verdict(pid)
     work = V.workdir("posix-" + pid)
     ss = posixgen.sentences(seed, 3000 if tier == "quick" else 60000)
+    gen, ngen = tlc_sentences(verdict)
+    if tier == "quick":
+        gen = [x for i, x in enumerate(gen) if i % 4 == seed % 4]
+    ss = list(dict.fromkeys(ss + gen))
     with open(os.path.join(work, "in.txt"), "w") as f:
         f.write("".join(s.hex() + "\n" for s in ss))
     states = trans = 0
@@ -68,7 +91,7 @@ def run(pid, tier, seed):
                                   % (bytes(e["s"]), e["fill"], e["ok"], json.dumps(e)[:300]), e)
         # ---- end to end: sentences as TZif footers
         r = __import__("random").Random(seed)
-        pick = r.sample(ss, min(len(ss), 400 if tier == "quick" else 4000))
+        pick = r.sample(ss, min(len(ss), 400 if tier == "quick" else 3000))
         zl = os.path.join(work, "zones.txt")
         os.makedirs(os.path.join(work, "z"), exist_ok=True)
         with open(zl, "w") as f:
@@ -106,7 +129,9 @@ def run(pid, tier, seed):
     ev = {"property_id": pid, "tier": tier, "seed": seed, "level": "model_checking",
           "coverage": {"states": states, "transitions": trans, "traces_validated_against_impl": len(ss),
                        "evaluations": events, "distinct_nontrivial": len(ss),
-                       "rule": "distinct sentences: one-component-at-a-time sweeps over every value/boundary of each grammar "
+                       "tlc_enumerated_grammar_product": ngen,
+                       "rule": "distinct sentences: the full product of the grammar's component alternatives enumerated by TLC (GenPosix: 172 905 "
+                               "sentences, every fourth in quick), one-component-at-a-time sweeps over every value/boundary of each grammar "
                                "component, std-only products, structural near misses, random combinations, single-edit mutations, "
                                "random byte strings; each run with 2 pre-fill patterns; a sample also end-to-end as TZif footers",
                        "samples": samples or ["(none)"], "exhaustive": False},
